@@ -308,18 +308,19 @@ func contentOnlyKey(x any) string {
 // ---- string-valued settings ------------------------------------------------------------------
 
 type setInst struct {
-	s     stackage.Stack
-	kind  string
-	id    string
-	cat   string
-	delim string
-	sym   string
-	enc   [][]string
-	aux   stackage.Auxiliary // nil = whatever the library allocated
-	myAux stackage.Auxiliary // the caller's own map (see ownAux)
-	auxOK bool               // model knows the identity
-	fifo  bool
-	fold  bool
+	s                       stackage.Stack
+	kind                    string
+	id                      string
+	cat                     string
+	delim                   string
+	sym                     string
+	enc                     [][]string
+	aux                     stackage.Auxiliary // nil = whatever the library allocated
+	myAux                   stackage.Auxiliary // the caller's own map (see ownAux)
+	auxOK                   bool               // model knows the identity
+	fifo                    bool
+	fold                    bool
+	nopad, lonce, paren, ro bool
 	// own: a slice the caller keeps (two characters in one backing array); by: another stack that was
 	// configured from the whole of it; whatever is done with parts of the slice, both stay as they are
 	own    []string
@@ -380,7 +381,27 @@ var c18EmptyAux = stackage.Auxiliary{}
 
 func c18SetOps() []setOp {
 	var ops []setOp
-	add := func(n string, f func(in *setInst)) { ops = append(ops, setOp{n, f}) }
+	add := func(n string, f func(in *setInst)) {
+		ops = append(ops, setOp{n, func(in *setInst) {
+			before := *in
+			f(in)
+			if before.ro && !strings.HasPrefix(n, "SetReadOnly") {
+				// read-only: the call was made and refused; the model stays as it was (the instance and the
+				// caller's own values are the same objects as before)
+				s, own, by, byWant, myAux := in.s, in.own, in.by, in.byWant, in.myAux
+				*in = before
+				in.s, in.own, in.by, in.byWant, in.myAux = s, own, by, byWant, myAux
+			}
+		}})
+	}
+	for _, on := range []bool{true, false} {
+		on := on
+		add(fmt.Sprintf("SetNoPadding(%v)", on), func(in *setInst) { in.s.SetNoPadding(on); in.nopad = on })
+		add(fmt.Sprintf("SetLeadOnce(%v)", on), func(in *setInst) { in.s.SetLeadOnce(on); in.lonce = on })
+		add(fmt.Sprintf("SetParen(%v)", on), func(in *setInst) { in.s.SetParen(on); in.paren = on })
+		add(fmt.Sprintf("SetReadOnly(%v)", on), func(in *setInst) { in.s.SetReadOnly(on); in.ro = on })
+	}
+	add(`SetID("_random") then SetID("fixed")`, func(in *setInst) { in.s.SetID("_random"); in.s.SetID("fixed"); in.id = "fixed" })
 	for _, id := range []string{"alpha", "", "beta"} {
 		id := id
 		add(fmt.Sprintf("SetID(%q)", id), func(in *setInst) { in.s.SetID(id); in.id = id })
@@ -580,7 +601,7 @@ func c18SetMachine(c *Ctx, kind string, maxDepth int) *Machine[*setInst] {
 				if a := s.Auxiliary(); a == nil || reflect.ValueOf(a).Pointer() != reflect.ValueOf(in.aux).Pointer() {
 					bad("Auxiliary:"+cls, "Auxiliary() is not the map that was assigned")
 				}
-			} else if ops[i].name == "SetAuxiliary()" || ops[i].name == "SetAuxiliary(nil)" {
+			} else if !in.ro && (ops[i].name == "SetAuxiliary()" || ops[i].name == "SetAuxiliary(nil)") {
 				if a := s.Auxiliary(); a == nil || a.Len() != 0 {
 					bad("Auxiliary:"+cls, "Auxiliary() after %s = %v, want a fresh empty map", ops[i].name, a)
 				}
@@ -590,22 +611,13 @@ func c18SetMachine(c *Ctx, kind string, maxDepth int) *Machine[*setInst] {
 			}
 			// reflected in String()
 			if kind != "BASIC" {
-				a, b := refEncap(in.enc, "a"), refEncap(in.enc, "b")
-				var want string
-				switch {
-				case kind == "LIST" && in.delim != "":
-					want = a + " " + in.delim + " " + b
-				case kind == "LIST":
-					want = a + " " + b
-				case in.sym != "":
-					want = a + " " + in.sym + " " + b
-				default:
-					word := kind
-					if in.fold {
-						word = strings.ToLower(kind) // folding applies to the operator word only, never to a symbol
-					}
-					want = a + " " + word + " " + b
+				// the reference renderer of C02, fed with the model's settings
+				enc := in.enc
+				if enc == nil {
+					enc = [][]string{}
 				}
+				want := gnode{T: "stack", Kind: kind, Paren: in.paren, Fold: in.fold, NoPad: in.nopad, Lonce: in.lonce, Sym: in.sym, Delim: in.delim, EncList: enc,
+					Kids: []gnode{{T: "leaf", V: "a"}, {T: "leaf", V: "b"}}}.ref()
 				if got := s.String(); got != want {
 					bad("String:"+cls, "String()=%q want %q (delimiter %q symbol %q encapsulation %q)", got, want, in.delim, in.sym, in.enc)
 				}
